@@ -302,3 +302,31 @@ PROPS['C12']['verus'] = ['worker', 'lemmas']
 PROPS['C12']['verus_only'] = {'worker': [r'CommandExecutor::put'], 'lemmas': [r'lemma_poll_after_flag']}
 PROPS['C12']['floor'] = {'quick': 9, 'thorough': 9}
 PROPS['C12']['not_covered'] = ['the worker loop itself (status = execute(command); acknowledgement.done(status)) is read, not verified: "the effect is visible when Accepted is observed" rests on put_outcome (Verus) plus that order']
+
+PROPS['C17'] = dict(
+    level='proof', title='Valid calls never panic or kill a background worker',
+    verus=['sketch', 'policy', 'api', 'worker'],
+    verus_probes={'F-C17-ttl-remove-weight': dict(unit='api', drop_line='!ttl_remove_region(old(verif_w), request),', fn=r'put_or_update')},
+    kani={'quick': ['sv/expiring_sets_deadline_now_plus_ttl', 'sv/ttl_overflow_region_cover', 'sv/update_changes_exactly_what_was_requested', 'ttl/shard_index_s2', 'ttl/shard_index_s4',
+                    'wc/default_weight_is_positive_and_ttl_adds_the_ticker_entry', 'pou/builder_copies_fields', 'pou/updated_weight_table',
+                    'fc/smallest_counters_are_usable', 'fc/next_power_2_all_inputs', 'fc/row_increment_at_all_bytes', 'fc/row_half_counters_all_bytes',
+                    'cw/update_weight_stats_full_domain', 'cw/space_available_full_domain', 'cw/add_n2', 'cw/delete_n2', 'cw/update_outside_region_n2', 'cw/update_region_cover_n2',
+                    'stats/each_increment_touches_only_its_counter', 'idgen/ids_strictly_increase', 'ack/done_through_acknowledgement', 'ack/poll_from_any_j_state'],
+          'thorough': ['cw/add_n3', 'cw/delete_n3', 'cw/update_outside_region_n3', 'store/put_with_ttl_n2', 'store/update_n2', 'ttl/put_n2_s2', 'ttl/sweep_n2_s2']},
+    kani_meta=dict(BND(['fc/smallest_counters_are_usable', 'cw/add_n2', 'cw/delete_n2', 'cw/update_outside_region_n2', 'cw/add_n3', 'cw/delete_n3', 'cw/update_outside_region_n3',
+                        'store/put_with_ttl_n2', 'store/update_n2', 'ttl/put_n2_s2', 'ttl/sweep_n2_s2']),
+                   **{'sv/ttl_overflow_region_cover': dict(region_cover='F-C17-ttl-overflow'), 'cw/update_region_cover_n2': dict(region_cover='F-C01-update')}),
+    harness_timeout='1500s', kani_timeout=3400,
+    bounded_note='triples with at most N entries; FrequencyCounter::new for counters <= 3 (Verus covers every size)',
+    floor={'quick': 80, 'thorough': 86},
+    assumptions=[CONC, 'documented preconditions only: weight > 0, a request the builder accepts, a key that is not held comes with a value, counters/capacity/cache weight/pool/buffer/queue > 0, '
+                       'shards a power of two > 1, the weight function returns positive weights, the clock is not before the Unix epoch (taken from expect("Time went backwards"))',
+                 'panic-freedom = the built-in obligations of both verifiers on every function under contract: arithmetic overflow, index bounds, unwrap/expect on None/Err, '
+                 'division by zero, and every assert! (rule T3 turns a reachable assert! into a failed obligation); Kani additionally turns a same-thread lock re-acquisition into a panic',
+                 'memory exhaustion (e.g. counters = 2^62) is out of scope'],
+    not_covered=['"keeps serving afterwards" only in the sense that no function under contract that runs on a background thread can panic outside the listed regions',
+                 'ConfigBuilder / CacheD::new / Pool / the three thread loops themselves are not under contract (Kani crashes on the boxed-closure config; thread spawning is unsupported)',
+                 'known findings: F-C17-ttl-overflow (Duration::MAX), F-C17-ttl-remove-weight, F-C01-update (UpdateWeight overflow / breach)'],
+    explanation='C17 is assembled from the panic-freedom obligations of every function under contract in the other units (Verus: sketch, policy, api, worker - for all inputs; Kani: the leaf harnesses, '
+                'bit-precise) plus boundary harnesses for TTL arithmetic, shard selection, default weights, the request builder and the smallest sketch sizes.',
+)
